@@ -25,7 +25,11 @@ from pyccolo.tracer import (
     register_raw_handler,
     skip_when_tracing_disabled,
 )
-from pyccolo.tracer import future_flags_of, parse_function_source
+from pyccolo.tracer import (
+    find_function_code,
+    future_flags_of,
+    parse_function_source,
+)
 from pyccolo.utils import multi_context, resolve_tracer
 
 
@@ -180,13 +184,9 @@ def instrumented(tracers: List[BaseTracer]) -> Callable[[Callable[..., Any]], Ca
             compiled: types.CodeType = compile(
                 code, f.__code__.co_filename, "exec", flags=future_flags_of(f), dont_inherit=True
             )
-            for const in compiled.co_consts:
-                if (
-                    isinstance(const, types.CodeType)
-                    and const.co_name == f.__code__.co_name
-                ):
-                    f.__code__ = const
-                    break
+            new_code = find_function_code(compiled, f.__code__.co_name)
+            if new_code is not None:
+                f.__code__ = new_code
 
         @functools.wraps(f)
         def instrumented_f(*args, **kwargs) -> Any:
